@@ -765,7 +765,11 @@ func run(r *core.R) {
 	c.verbatim = !src.Chance(600, "cfg_normalized_save")
 	c.kubeCleanup = src.Chance(250, "cfg_kube_cleanup")
 	c.slowCmds = src.Chance(300, "cfg_slow_cmds")
-	c.nChains = src.Range(2, 8, "cfg_nchains")
+	maxChains, maxOps := 8, 70
+	if r.Tier == "thorough" {
+		maxChains, maxOps = 10, 150
+	}
+	c.nChains = src.Range(2, maxChains, "cfg_nchains")
 	c.nTokens = src.Range(3, 14, "cfg_ntokens")
 	faults := src.Chance(850, "cfg_faults")
 	if faults {
@@ -778,7 +782,7 @@ func run(r *core.R) {
 		c.pForeignMid = []int{60, 150, 350}[src.Intn(3, "cfg_p_foreign_mid")]
 		c.pCrash = []int{10, 30, 80}[src.Intn(3, "cfg_p_crash")]
 	}
-	nops := src.Range(6, 70, "cfg_nops")
+	nops := src.Range(6, maxOps, "cfg_nops")
 	r.Cfg("table", c.table)
 	r.Cfg("ip_version", int(c.ipVersion))
 	r.Cfg("backend", c.backend)
